@@ -39,7 +39,7 @@ type KvmSem struct {
 	Call                *ast.CallExpr
 	Fn                  *ast.FuncDecl
 	RecvVar             types.Object
-	StateArg, AbvArg    int // f(&X, abv): positions of the state and abbreviation arguments (StateArg < 0: method call)
+	StateArg, AbvArg    int      // f(&X, abv): positions of the state and abbreviation arguments (StateArg < 0: method call)
 	Labels              []string // abbreviations M accepts on the zero state
 	DupOK               bool
 	DupWhy              string
